@@ -445,7 +445,8 @@ def run(tier):
                  "flagged by checkImage", bool(f6) and (len(rejected) == len(f6) or seen_f6),
                  "the witness tables compile and the checker did not flag them")
     need = want_reallocs
-    short = [c.id for c in cases if c.meta["kind"] == "additions" and c.meta["base"] != "boundary" and (c.fault or c.meta.get("reallocs", 0) < need)]
+    short = ["%s(%s)" % (c.id, ("%s in %s at op %s" % (c.fault["kind"], c.fault["frame"], c.fault.get("op_index"))) if c.fault else "reallocs=%s base=%s/%s accepted=%d/%d first=%s" % (c.meta.get("reallocs"), c.meta.get("base"), c.meta.get("arg"), sum(1 for op, o in zip(c.ops, c.out) if op.startswith("ADD ") and o.startswith("D 1")), sum(1 for op in c.ops if op.startswith("ADD ")), (c.out[0][:60] if c.out else None)))
+             for c in cases if c.meta["kind"] == "additions" and c.meta["base"] != "boundary" and (c.fault or c.meta.get("reallocs", 0) < need)]
     v.obligation("every addition sequence runs to its end and forces the image to grow through several reallocations", not short, "faulted or too few: %s" % short)
     v.cov["distribution"] = dist
     for c in cases:
